@@ -1,6 +1,8 @@
 package mon
 
 import (
+	"bytes"
+	"compress/gzip"
 	"fmt"
 	"os"
 	"os/exec"
@@ -711,6 +713,36 @@ func runC04(c *fw.Ctx) {
 			}
 		}
 		os.Remove(path)
+	})
+	// files that begin with the signature of another format (compressed streams, archives, byte order marks) or ARE such a
+	// stream: ParseFile parses the bytes that are in the file, as ParseObject would
+	var gz bytes.Buffer
+	zw := gzip.NewWriter(&gz)
+	zw.Write([]byte(`{"zipped":true}`))
+	zw.Close()
+	magics := []string{"\x1f\x8b", "\x1f\x8b\x08\x00", "PK\x03\x04", "BZh9", "\x28\xb5\x2f\xfd", "\xfd7zXZ\x00", "\xef\xbb\xbf", "\xff\xfe", "\xfe\xff", "%PDF-", "#!/bin/sh\n", "\x00\x00\x00\x00", gz.String()}
+	c.Cases("magic-prefixes", len(magics)*2, true, func(i int, r *rng.R) {
+		text := magics[i/2]
+		if i/2 < len(magics)-1 {
+			text += []string{` {"a":1}`, `{"a":[1,2],"b":"c"}`}[i%2]
+		} else if i%2 == 1 {
+			text += `{"after":"the stream"}`
+		}
+		path := filepath.Join(dir, "magic.json")
+		if err := os.WriteFile(path, []byte(text), 0o644); err != nil {
+			return
+		}
+		defer os.Remove(path)
+		c.Distinct(fmt.Sprintf("magic %d", i))
+		of := doParseFile(path)
+		c.Count("parsefile_calls")
+		in := "ParseFile of a file holding " + quoteBytes(spec.Trunc(text, 80))
+		if !checkOutcome(c, "ParseFile", in, of) {
+			return
+		}
+		if oo := doParseObject(text); !sameOutcome(of, oo) {
+			c.Violate("parsefile-differs-from-parseobject", in, fmt.Sprintf("ParseObject of the same bytes: err=%q tree=%s", oo.Err, spec.Trunc(oo.Canon, 300)), fmt.Sprintf("ParseFile: err=%q tree=%s", of.Err, spec.Trunc(of.Canon, 300)))
+		}
 	})
 	// a path whose size as reported by Stat is not what reading it delivers: a named pipe fed by a writer
 	c.Cases("fifo", c.N(3, 20), true, func(i int, r0 *rng.R) {
